@@ -1,7 +1,7 @@
 """SD pipeline: scenarios -> real SdCard driver against the simulated card -> TLC (SdTrace)."""
 import json, os, time, concurrent.futures as cf
 from common import *
-import sdgen
+import sdgen, sdtours
 
 SHARDS = 8
 
@@ -30,7 +30,7 @@ def run_suite(tier, seed, force=False):
     build_harness()
     os.makedirs(cdir, exist_ok=True)
     quick = tier == 'quick'
-    scs = sdgen.healthy(seed, quick) + sdgen.misbehaving(seed, quick)
+    scs = sdgen.healthy(seed, quick) + sdgen.misbehaving(seed, quick) + sdtours.scenarios(tier, seed)
     shards = [[] for _ in range(SHARDS)]
     for k, s in enumerate(scs):
         shards[k % SHARDS].append(s)
@@ -65,7 +65,8 @@ def run_suite(tier, seed, force=False):
                     classes.add(('call', cur['op'], cur['n'], e['k'], e['e']))
                 elif e['ev'] == 'WrBlock':
                     classes.add(('wr', e['mode'], e['resp'], e['misb']))
-    res = dict(tier=tier, seed=seed, dir=cdir, wall=time.time() - t0, errors=errors, scenarios=len(scs), viols=viols, calls=calls, events=events,
+    drift, drift_steps = sdtours.drift(scs, [r['trace'] for r in results if r.get('trace')])
+    res = dict(tier=tier, seed=seed, dir=cdir, drift=drift, drift_steps=drift_steps, tours=sum(1 for s in scs if s.get('expect') is not None), wall=time.time() - t0, errors=errors, scenarios=len(scs), viols=viols, calls=calls, events=events,
                tlc_states=sum((r.get('stats') or {}).get('distinct', 0) for r in results),
                tlc_generated=sum((r.get('stats') or {}).get('generated', 0) for r in results),
                classes=sorted(map(list, classes), key=str), sample=sample)
